@@ -305,6 +305,29 @@ func (st *State) execRecv(fr *Frame, in *ssa.UnOp, x Value) Value {
 	return nil // register is written on delivery
 }
 
+// yield hands the processor to the next runnable goroutine (round robin by id); the current one
+// stays runnable and continues after the instruction it is executing.
+func (st *State) yield() {
+	var next *G
+	for _, g := range st.gs {
+		if g != st.cur && g.status == gRunnable && len(g.frames) > 0 && g.id > st.cur.id {
+			next = g
+			break
+		}
+	}
+	if next == nil {
+		for _, g := range st.gs {
+			if g != st.cur && g.status == gRunnable && len(g.frames) > 0 {
+				next = g
+				break
+			}
+		}
+	}
+	if next != nil {
+		st.cur = next
+	}
+}
+
 // schedule picks the next runnable goroutine (lowest id first). When nobody can
 // run and the harness has returned, the path ends after the leak check.
 func (st *State) schedule() {
@@ -746,6 +769,12 @@ func init() {
 			}
 			delete(st.lockOwner, p.Obj)
 			st.res.LockOps++
+			if st.inst.YieldAtUnlock {
+				if st.spec != nil {
+					panic(specAbort{"unlock is a preemption point"})
+				}
+				st.yield()
+			}
 			return nil
 		},
 	}
